@@ -1,6 +1,189 @@
 import SR.Drv.Loop
-/-! Driver commands for C07 (stub). -/
+import SR.Actor.Codec
+/-! Driver commands for C07.
+Model side: `net-run` (a network object under a sequence of send/deliver/drop groups, observed through `len`,
+`iter_all`, `iter_deliverable` and its representation after every group), `traces` (all maximal action
+sequences of a small actor system, depth-bounded).
+Oracle side: `o-net` — the REFERENCE SEMANTICS: plain histories of what was sent / delivered / dropped per
+flow or envelope; the implementation's observations after every group must be what the histories say. -/
 namespace SR.Drv.C07
+open SR SR.Actor SR.Actor.Codec
+
+def op? : SExp → Option NetOp
+  | .list [.atom "s", s, d, m] => do pure (.send ⟨← s.nat?, ← d.nat?, ← m.nat?⟩)
+  | .list [.atom "d", s, d, m] => do pure (.deliver ⟨← s.nat?, ← d.nat?, ← m.nat?⟩)
+  | .list [.atom "x", s, d, m] => do pure (.drop ⟨← s.nat?, ← d.nat?, ← m.nat?⟩)
+  | _ => none
+
+def envLe (a b : Env) : Bool := a == b || Env.lt a b
+def sortEnvs (l : List Env) : List Env := l.mergeSort envLe
+
+/-- what the harness reads off a network: representation, `len()`, `iter_all()`, `iter_deliverable()`
+(iteration order is meaningful for the ordered network only; the others are sorted on both sides) -/
+def observe (n : Net) : SExp :=
+  let fix := fun l => if n.isOrdered then l else sortEnvs l
+  .list [ofNet n, SExp.ofNat n.len, SExp.ofList ofEnv (fix n.iterAll), SExp.ofList ofEnv (fix n.iterDeliverable)]
+
+def runGroups (n : Net) : List (List NetOp) → List String
+  | [] => []
+  | g :: gs =>
+    match g.foldl (fun (acc : Option Net) op => acc.bind (·.apply op)) (some n) with
+    | none => ["panic"]
+    | some n' => toString (observe n') :: runGroups n' gs
+
+/-! ### all maximal action sequences, depth-first, sorted actions, at most `cap` sequences -/
+
+partial def tracesFrom (sys : USys) (depth : Nat) (st : USt) (pre : List Action) (cap : Nat)
+    (acc : Array (List Action)) : Array (List Action) :=
+  if acc.size ≥ cap then acc else
+  let nexts := (sortActions (actions sys st)).filterMap (fun a =>
+    match step sys st a with | .next s' => some (a, s') | _ => none)
+  if depth = 0 || nexts.isEmpty then acc.push pre.reverse
+  else nexts.foldl (fun acc (a, s') => tracesFrom sys (depth - 1) s' (a :: pre) cap acc) acc
+
+/-! ### reference semantics -/
+
+structure Obs where
+  net : Net
+  len : Nat
+  all : List Env
+  deliverable : List Env
+  acts : Option (List Action)
+
+def obs? : List SExp → Option Obs
+  | [net, len, all, del, acts] => do
+    let acts ← match acts with
+      | .atom "-" => pure none
+      | a => (a.listOf? action?).map some
+    pure { net := ← net? net, len := ← len.nat?, all := ← all.listOf? env?, deliverable := ← del.listOf? env?, acts := acts }
+  | _ => none
+
+/-- the history: initial envelopes (in send order) followed by all ops so far -/
+abbrev Hist' := List NetOp
+
+def isOn (e : Env) : NetOp → Bool
+  | .send x | .deliver x | .drop x => x == e
+
+def onFlow (f : Nat × Nat) : NetOp → Bool
+  | .send x | .deliver x | .drop x => (x.src, x.dst) == f
+
+/-- ordered: queue of flow `f` = everything sent on `f`, minus as many as were delivered-or-dropped, in order -/
+def refQueue (h : Hist') (f : Nat × Nat) : List Nat :=
+  let sent := h.filterMap (fun | .send x => if (x.src, x.dst) == f then some x.msg else none | _ => none)
+  let removed := (h.filter (fun op => onFlow f op && (match op with | .send _ => false | _ => true))).length
+  sent.drop removed
+
+/-- non-duplicating: copies of `e` = sent − delivered − dropped (`none` if that would be negative) -/
+def refCount (h : Hist') (e : Env) : Option Nat :=
+  let sent := (h.filter (fun op => op == .send e)).length
+  let gone := (h.filter (fun op => op == .deliver e || op == .drop e)).length
+  if gone ≤ sent then some (sent - gone) else none
+
+/-- duplicating: `e` is in flight iff the last send-or-drop of `e` is a send -/
+def refPresent (h : Hist') (e : Env) : Bool :=
+  match (h.filter (fun op => op == .send e || op == .drop e)).getLast? with
+  | some (.send _) => true
+  | _ => false
+
+def envsOf (h : Hist') : List Env :=
+  (h.map (fun | .send x | .deliver x | .drop x => x)).eraseDups
+
+/-- reference contents (sorted; for the ordered network by flow, queue order inside a flow) -/
+def refContents (kind : String) (h : Hist') : Option (List Env) :=
+  let envs := sortEnvs (envsOf h)
+  match kind with
+  | "d" => some (envs.filter (refPresent h))
+  | "n" => envs.foldr (fun e acc => do
+      let c ← refCount h e; let rest ← acc; pure (List.replicate c e ++ rest)) (some [])
+  | _ =>
+    let flows := (envs.map (fun e => (e.src, e.dst))).eraseDups
+    some (flows.flatMap (fun f => (refQueue h f).map (fun m => ⟨f.1, f.2, m⟩)))
+
+/-- reference deliverable envelopes: present envelopes / envelopes with a copy left / flow heads -/
+def refDeliverable (kind : String) (h : Hist') : List Env :=
+  let envs := sortEnvs (envsOf h)
+  match kind with
+  | "d" => envs.filter (refPresent h)
+  | "n" => envs.filter (fun e => match refCount h e with | some c => c > 0 | none => false)
+  | _ =>
+    let flows := (envs.map (fun e => (e.src, e.dst))).eraseDups
+    flows.filterMap (fun f => (refQueue h f).head?.map (fun m => ⟨f.1, f.2, m⟩))
+
+def isPerm (a b : List Env) : Bool := sortEnvs a == sortEnvs b
+
+def lastDelivered (h : Hist') (init : Option Env) : Option Env :=
+  match (h.filterMap (fun | .deliver x => some x | _ => none)).getLast? with
+  | some e => some e
+  | none => init
+
+def canonical : Net → Bool
+  | .dup set _ => set.eraseDups.length == set.length
+  | .nondup ms => ms.all (fun p => p.2 ≥ 1) && (ms.map (·.1)).eraseDups.length == ms.length
+  | .ord fs => fs.all (fun p => !p.2.isEmpty) && (fs.map (·.1)).eraseDups.length == fs.length
+
+def checkObs (kind : String) (nActors : Nat) (lossy : Bool) (last0 : Option Env) (h : Hist') (o : Obs) : Option String := do
+  let some ref := refContents kind h | some "more deliveries/drops than sends of an envelope"
+  let del := refDeliverable kind h
+  if !canonical o.net then some "representation not canonical (empty queue / zero count / duplicate key)"
+  else if kind == "o" && o.net.contents != ref then some s!"contents {SExp.ofList ofEnv o.net.contents} but reference {SExp.ofList ofEnv ref}"
+  else if !isPerm o.net.contents ref then some s!"contents {SExp.ofList ofEnv o.net.contents} but reference {SExp.ofList ofEnv ref}"
+  else if o.len != ref.length then some s!"len {o.len} but {ref.length} in flight"
+  else if kind == "o" && o.all != ref then some s!"iter_all {SExp.ofList ofEnv o.all} but reference {SExp.ofList ofEnv ref}"
+  else if !isPerm o.all ref then some s!"iter_all {SExp.ofList ofEnv o.all} but reference {SExp.ofList ofEnv ref}"
+  else if !isPerm o.deliverable del then some s!"iter_deliverable {SExp.ofList ofEnv o.deliverable} but reference {SExp.ofList ofEnv del}"
+  else if kind == "d" && (match o.net with | .dup _ l => l != lastDelivered h last0 | _ => true) then some "last_msg is not the last delivered envelope"
+  else match o.acts with
+    | none => none
+    | some acts =>
+      let netActs := acts.filter (fun | .deliver _ | .drop _ => true | _ => false)
+      let expDel := (del.filter (fun e => e.dst < nActors)).map Action.deliver
+      let expDrop := if lossy then del.map Action.drop else []
+      if sortActions netActs != sortActions (expDel ++ expDrop) then
+        some s!"offered network actions {SExp.ofList ofAction netActs} but reference {SExp.ofList ofAction (sortActions (expDel ++ expDrop))}"
+      else none
+
+/-- an op of a group must be admissible on the reference state before it -/
+def checkOp (kind : String) (h : Hist') : NetOp → Option String
+  | .send _ => none
+  | .deliver e => if (refDeliverable kind h).contains e then none else some s!"delivered {ofEnv e} which is not deliverable in the reference semantics"
+  | .drop e => if (refDeliverable kind h).contains e then none else some s!"dropped {ofEnv e} which is not deliverable in the reference semantics"
+
+def oNet (kind : String) (nActors : Nat) (lossy : Bool) (last0 : Option Env) (h0 : Hist') (steps : List (List NetOp × Obs)) : String := Id.run do
+  let mut h := h0
+  let mut k := 0
+  for (ops, o) in steps do
+    for op in ops do
+      match checkOp kind h op with
+      | some err => return s!"step {k}: {err}"
+      | none => pure ()
+      h := h ++ [op]
+    match checkObs kind nActors lossy last0 h o with
+    | some err => return s!"step {k}: {err}"
+    | none => pure ()
+    k := k + 1
+  return "ok"
+
 def handle : Drv.Handler
+  | "net-run", [.atom kind, envs, last, groups] => do
+    let envs ← envs.listOf? env?
+    let last ← SExp.optOf? env? last
+    let n ← mkNet kind envs last
+    let groups ← groups.listOf? (SExp.listOf? op?)
+    pure (" ".intercalate (toString (observe n) :: runGroups n groups))
+  | "traces", [sys, depth, cap] => do
+    let sys ← sys? sys; let depth ← depth.nat?; let cap ← cap.nat?
+    match init sys with
+    | none => pure "panic"
+    | some st0 =>
+      let ts := tracesFrom sys depth st0 [] cap #[]
+      pure (toString (SExp.list (ts.toList.map (fun t => SExp.list (t.map ofAction)))))
+  | "o-net", [.atom kind, nActors, lossy, envs, last, steps] => do
+    let envs ← envs.listOf? env?
+    let last ← SExp.optOf? env? last
+    let steps ← steps.listOf? (fun
+      | .list (ops :: rest) => do pure (← ops.listOf? op?, ← obs? rest)
+      | _ => none)
+    pure (oNet kind (← nActors.nat?) (← lossy.bool?) last (envs.map NetOp.send) steps)
   | _, _ => none
+
 end SR.Drv.C07
